@@ -309,8 +309,9 @@ Definition known_C10 (l : c10_lang) (package : str) (pd : parsed) : list string 
     c10_cls10 (existsb (fun f => mem_str (renamed (fid f)) c10_swift_label_keywords) (c10_all_fields pd)) "C10-swift-label" ++
     c10_cls10 (existsb (fun f => c10_digit_first (renamed (fid f))) (c10_all_fields pd)) "C10-digit-name"
   | CPY =>
-    (* `Name[T] = List[T]`: a subscript assignment to an undefined name, fails when the module is imported *)
-    c10_cls10 (existsb (fun a => match agenerics a with [] => false | _ => true end) (p_aliases pd)) "C10-python-generic-alias" ++
+    (* C10-python-generic-alias (`Name[T] = List[T]`: a subscript assignment to an undefined name, NameError when the
+       module is imported) was repaired in /repo (python.rs write_type_alias prints `Name = List[T]` and declares T as a
+       TypeVar); its witness is the regression pin C10_python_generic_alias_fixed *)
     (* a type alias (evaluated when the module is imported) that applies type arguments to a generic ENUM: the
        enum's classes are not declared Generic[..], `Name[..]` raises TypeError *)
     c10_cls10 (existsb (fun a => c10_mentions_applied (map (fun e => renamed (eid (enum_shared e)))
